@@ -368,3 +368,39 @@ def timeline(sc, tr):
         elif c == 7:
             out.append(dict(t=now, kind="blocked"))
     return out
+
+
+def _tuplify(v):
+    """replay files are JSON: sequences come back as lists; scenarios are built with tuples"""
+    if isinstance(v, list):
+        return tuple(_tuplify(x) for x in v)
+    return v
+
+
+def replay_generic(body, oracles, fix=None, show=40):
+    """re-run the scenario of a replay file exactly as the family did (same worker function, earlier connections included) and
+    let the family's own oracle judge it; exit status 1 = the stored input still fails, 0 = it does not, 2 = cannot tell"""
+    fn = oracles.get(body.get("family"))
+    if fn is None:
+        print("no replay for family %r: re-run the quick check" % (body.get("family"),))
+        return 2
+    sc = unjson_sc(body["scenario"])
+    if "steps" in sc:
+        sc["steps"] = [tuple(x) for x in sc["steps"]]
+    if isinstance(sc.get("app"), dict):
+        sc["app"] = {k: [tuple(a) for a in v] for k, v in sc["app"].items()}
+    for k in list(sc):
+        if k.startswith("_") and isinstance(sc[k], list) and k not in ("_expect", "_expected", "_completed", "_between", "_seq"):
+            sc[k] = _tuplify(sc[k]) if k in ("_params", "_hdr", "_shape", "_target", "_proxy") else sc[k]
+    if fix:
+        sc = fix(sc) or sc
+    it, extra = _impl_worker((strip_meta(sc), {}))
+    if it is None:
+        print(extra.get("error", "")[-1500:])
+        return 2
+    cit = simnet.canon_trace(it)
+    for x in cit[:show]:
+        print(x)
+    res = fn(sc, cit, extra)
+    print("REPLAY:", ("VIOLATION reproduced: %s" % res[0]) if res else "property holds on this input")
+    return 1 if res else 0
